@@ -1,5 +1,5 @@
 (* Facts about the networkx model (lib/NxModel.v) used to reason about graph construction. *)
-From Coq Require Import List Bool ZArith Lia Permutation Arith.
+From Coq Require Import List Bool ZArith Lia Permutation Arith FinFun.
 Import ListNotations.
 From V Require Import PyBase NxModel.
 
@@ -262,6 +262,139 @@ Section NxFacts.
       apply orb_true_iff in E. destruct E as [E|E]; apply eqb_spec in E; auto.
     - intros [H [a [b [Hin E]]]]. split; [exact H|]. exists (a, b). split; [exact Hin|].
       destruct E as [E|E]; subst; rewrite eqb_refl; [reflexivity | apply orb_true_r].
+  Qed.
+
+  (* ---- adjacency dicts have each successor once *)
+  Definition adj_keys_nodup (g : digraph N A) : Prop := forall u, NoDup (map fst (adj_of eqb g u)).
+
+  Lemma keys_setitem_notin {V} (d : list (N * V)) k v : ~ In k (map fst d) -> map fst (od_setitem eqb d k v) = map fst d ++ [k].
+  Proof.
+    induction d as [|[a b] d IH]; simpl; [reflexivity|]. intro H.
+    destruct (eqb k a) eqn:E; [apply eqb_spec in E; subst; exfalso; apply H; left; reflexivity|].
+    simpl. rewrite IH; [reflexivity | intro H1; apply H; right; exact H1].
+  Qed.
+
+  Lemma nodup_snoc {B} (l : list B) x : NoDup l -> ~ In x l -> NoDup (l ++ [x]).
+  Proof.
+    induction l as [|y l IH]; simpl; intros H Hx; [constructor; [intros []|constructor]|].
+    inversion H as [|? ? Hn Hl]; subst. constructor.
+    - rewrite in_app_iff. intros [H1|[H1|[]]]; [apply Hn; exact H1 | subst; apply Hx; left; reflexivity].
+    - apply IH; [exact Hl | intro H1; apply Hx; right; exact H1].
+  Qed.
+
+  Lemma setitem_keys_nodup {V} (d : list (N * V)) k v : NoDup (map fst d) -> NoDup (map fst (od_setitem eqb d k v)).
+  Proof.
+    intro H. destruct (memb eqb k (map fst d)) eqn:M.
+    - apply memb_In in M. rewrite keys_setitem_in; assumption.
+    - apply memb_false in M. rewrite keys_setitem_notin by exact M.
+      apply nodup_snoc; assumption.
+  Qed.
+
+  Lemma add_edge_keys_nodup (g : digraph N A) u v a :
+    wfg g -> In u (g_nodes g) -> In v (g_nodes g) -> adj_keys_nodup g -> adj_keys_nodup (g_add_edge eqb g u v a).
+  Proof.
+    intros Hwf Hu Hv Hk w. rewrite (adj_after_add_edge g u v a w Hwf Hu Hv).
+    destruct (eqb w u); [apply setitem_keys_nodup; apply Hk | apply Hk].
+  Qed.
+
+  Lemma nodup_keys_filter {V} (p : N * V -> bool) (l : list (N * V)) : NoDup (map fst l) -> NoDup (map fst (filter p l)).
+  Proof.
+    induction l as [|[a b] l IH]; simpl; intro H; [constructor|]. inversion H as [|? ? Hn Hl]; subst.
+    destruct (p (a, b)); simpl; [|apply IH; exact Hl]. constructor; [|apply IH; exact Hl].
+    intro Hin. apply Hn. apply in_map_iff in Hin. destruct Hin as [[x y] [E Hin]]. simpl in E. subst x.
+    apply filter_In in Hin. apply in_map_iff. exists (a, y). split; [reflexivity | apply Hin].
+  Qed.
+
+  Lemma adj_of_subgraph (g : digraph N A) es u :
+    adj_of eqb (g_edge_subgraph eqb g es) u =
+    if existsb (fun '(a, b) => orb (eqb a u) (eqb b u)) es
+    then filter (fun '(v0, _) => andb (existsb (fun '(a, b) => andb (eqb a u) (eqb b v0)) es) (existsb (fun '(a, b) => orb (eqb a v0) (eqb b v0)) es)) (adj_of eqb g u)
+    else [].
+  Proof.
+    unfold adj_of, g_edge_subgraph. cbv zeta. cbn [g_adj].
+    rewrite (od_find_map_vals (fun n l => filter (fun '(v0, _) => andb (existsb (fun '(a, b) => andb (eqb a n) (eqb b v0)) es) (existsb (fun '(a, b) => orb (eqb a v0) (eqb b v0)) es)) l)).
+    rewrite (od_find_filter_keys (fun n => existsb (fun '(a, b) => orb (eqb a n) (eqb b n)) es)).
+    destruct (existsb (fun '(a, b) => orb (eqb a u) (eqb b u)) es); [|reflexivity].
+    destruct (od_find eqb (g_adj g) u); reflexivity.
+  Qed.
+
+  Lemma subgraph_keys_nodup (g : digraph N A) es : adj_keys_nodup g -> adj_keys_nodup (g_edge_subgraph eqb g es).
+  Proof.
+    intros Hk u. rewrite adj_of_subgraph. destruct (existsb _ es); [|constructor].
+    apply nodup_keys_filter. apply Hk.
+  Qed.
+
+  Lemma key_in_iff (g : digraph N A) u v : In v (map fst (adj_of eqb g u)) <-> edge_at g u v <> None.
+  Proof.
+    unfold edge_at. pose proof (od_find_none_notin (adj_of eqb g u) v) as H.
+    destruct (od_find eqb (adj_of eqb g u) v) eqn:E.
+    - split; [discriminate|]. intros _. destruct (memb eqb v (map fst (adj_of eqb g u))) eqn:M; [apply memb_In; exact M|].
+      apply memb_false in M. apply H in M. discriminate.
+    - split; [|congruence]. intro Hin. exfalso. apply (proj1 H eq_refl). exact Hin.
+  Qed.
+
+  Lemma successors_spec (g : digraph N A) u : In u (g_nodes g) -> g_successors eqb g u = Ok (map fst (adj_of eqb g u)).
+  Proof. intro H. unfold g_successors, g_has_node. rewrite (proj2 (memb_In u _) H). reflexivity. Qed.
+
+  (* ---- the edge list *)
+  Lemma in_adj_iff (g : digraph N A) u v a : adj_keys_nodup g -> (In (v, a) (adj_of eqb g u) <-> edge_at g u v = Some a).
+  Proof.
+    intro Hk. split; [apply od_find_in_nodup; apply Hk | apply edge_at_in].
+  Qed.
+
+  Lemma nodup_app {B} (l1 l2 : list B) : NoDup l1 -> NoDup l2 -> (forall z, In z l1 -> In z l2 -> False) -> NoDup (l1 ++ l2).
+  Proof.
+    induction l1 as [|x l1 IH]; simpl; intros H1 H2 Hd; [exact H2|]. inversion H1 as [|? ? Hn H1']; subst. constructor.
+    - rewrite in_app_iff. intros [H|H]; [contradiction | apply (Hd x); [left; reflexivity | exact H]].
+    - apply IH; [exact H1' | exact H2 | intros z Hz; apply Hd; right; exact Hz].
+  Qed.
+
+  Lemma NoDup_flat_map {B C} (f : B -> list C) (l : list B) :
+    NoDup l -> (forall x, In x l -> NoDup (f x)) ->
+    (forall x y z, In x l -> In y l -> In z (f x) -> In z (f y) -> x = y) -> NoDup (flat_map f l).
+  Proof.
+    induction l as [|x l IH]; simpl; intros Hl Hf Hd; [constructor|]. inversion Hl as [|? ? Hn Hl']; subst.
+    apply nodup_app.
+    - apply Hf. left. reflexivity.
+    - apply IH; [exact Hl' | intros y Hy; apply Hf; right; exact Hy | intros a b z Ha Hb; apply Hd; right; assumption].
+    - intros z Hz Hz'. apply in_flat_map in Hz'. destruct Hz' as [y [Hy Hzy]].
+      assert (x = y) by (apply (Hd x y z); [left; reflexivity | right; exact Hy | exact Hz | exact Hzy]). subst. contradiction.
+  Qed.
+
+  Lemma g_edges_nodup (g : digraph N A) : NoDup (g_nodes g) -> adj_keys_nodup g -> NoDup (g_edges eqb g).
+  Proof.
+    intros Hn Hk. unfold g_edges. apply NoDup_flat_map; [exact Hn | |].
+    - intros n _. apply FinFun.Injective_map_NoDup.
+      + intros [v a] [v' a'] E. inversion E. reflexivity.
+      + specialize (Hk n). apply NoDup_map_inv in Hk. exact Hk.
+    - intros x y z _ _ Hx Hy. apply in_map_iff in Hx. apply in_map_iff in Hy.
+      destruct Hx as [[v a] [E1 _]], Hy as [[v' a'] [E2 _]]. subst z. inversion E2. reflexivity.
+  Qed.
+
+  Lemma g_edge_pairs_nodup (g : digraph N A) : NoDup (g_nodes g) -> adj_keys_nodup g ->
+    NoDup (map (fun e : N * N * A => (fst (fst e), snd (fst e))) (g_edges eqb g)).
+  Proof.
+    intros Hn Hk. unfold g_edges. rewrite flat_map_concat_map, concat_map, map_map, <- flat_map_concat_map.
+    apply NoDup_flat_map; [exact Hn | |].
+    - intros n _. rewrite map_map.
+      assert (E : map (fun x : N * A => (fst (fst (let '(v, a) := x in (n, v, a))), snd (fst (let '(v, a) := x in (n, v, a))))) (adj_of eqb g n)
+                  = map (fun v => (n, v)) (map fst (adj_of eqb g n))).
+      { rewrite map_map. apply map_ext. intros [v a]. reflexivity. }
+      rewrite E. apply FinFun.Injective_map_NoDup; [intros v v' E'; inversion E'; reflexivity | apply Hk].
+    - intros x y z _ _ Hx Hy. rewrite map_map in Hx, Hy. apply in_map_iff in Hx. apply in_map_iff in Hy.
+      destruct Hx as [[v a] [E1 _]], Hy as [[v' a'] [E2 _]]. simpl in *. subst z. inversion E2. reflexivity.
+  Qed.
+
+  Lemma g_edges_perm (g1 g2 : digraph N A) :
+    NoDup (g_nodes g1) -> NoDup (g_nodes g2) -> adj_keys_nodup g1 -> adj_keys_nodup g2 ->
+    (forall u, In u (g_nodes g1) <-> In u (g_nodes g2)) ->
+    (forall u v, In u (g_nodes g1) -> edge_at g1 u v = edge_at g2 u v) ->
+    Permutation (g_edges eqb g1) (g_edges eqb g2).
+  Proof.
+    intros N1 N2 K1 K2 Hn He. apply NoDup_Permutation; [apply g_edges_nodup; assumption | apply g_edges_nodup; assumption|].
+    intros [[u v] a]. rewrite !in_g_edges, (in_adj_iff g1 u v a K1), (in_adj_iff g2 u v a K2). split.
+    - intros [Hu E]. split; [apply Hn; exact Hu | rewrite <- (He u v Hu); exact E].
+    - intros [Hu E]. apply Hn in Hu. split; [exact Hu | rewrite (He u v Hu); exact E].
   Qed.
 
   (* ---- removing nodes; Kahn's algorithm on a ranked graph *)
